@@ -95,7 +95,7 @@ Section JoinProof.
       { apply N.ltb_ge. unfold devaddr_of_u32; cbn [nwkaddr]. rewrite land_33554431. pose proof (N.mod_upper_bound a 33554432 ltac:(lia)). lia. }
       rewrite Hn, Hm. cbn [orb bind]. eexists. reflexivity. }
     destruct Henc as [buf Henc].
-    unfold encoder_join, l_update_device_state. rewrite X1. cbn [st2 with_row ds_row]. cbn [d_appkey]. rewrite Henc.
+    unfold encoder_join, l_update_device_state. rewrite X1. cbn [st2 with_row ds_row]. cbn [load d_appkey d_keywarn d_eui]. rewrite Henc.
     cbn [fst snd ds_row ds_nonces ds_inbox ds_outbox with_row d_eui].
     split; [reflexivity|]. split; [rewrite X2; reflexivity|]. split; [rewrite X3; reflexivity|]. split; [rewrite X4; reflexivity|].
     split; [unfold fb_down in *; cbn; exact X5|]. exists buf. split; reflexivity.
